@@ -230,7 +230,7 @@ public:
      * @return the number of segments
      */
     size_t segments_count() const {
-        return levels.back().size();
+        return levels.empty() ? (n > 0) : levels.back().size(); // no level below the root: the root is the only segment
     }
 
     /**
